@@ -30,6 +30,10 @@ class QueuePeekable(Queue):
                 raise
         return self.peek_nowait()
 
+    def any_other(self, item, predicate) -> bool:
+        """True if a queued item other than `item` satisfies predicate."""
+        return any(other is not item and predicate(other) for other in self._queue)
+
     def peek_nowait(self):
         """Peek the next item in the queue.
 
